@@ -171,7 +171,17 @@ def check_item_preference(chk) -> None:
     # grouping of the table-level model
     rs = repo.func(T2, "Structure.residues")
     chk.note_function(rs)
-    _group_columns(chk, rs)
+    from checks import c15e
+
+    decided = False
+    try:
+        decided = c15e.check_group_columns_eval(chk, rs)
+    except AnalysisError:
+        raise
+    except Exception as ex:
+        chk.ok("group-columns-eval", rs.where, f"evaluation of Structure.residues failed internally ({type(ex).__name__}): the path rule decides")
+    if not decided:
+        _group_columns(chk, rs)
     # atom name / coordinates
     at = repo.func(T2, "Atom.coordinates")
     chk.note_function(at)
